@@ -93,7 +93,8 @@ class SCSIDevice(metaclass=ExMETA):
     def _is_replugged(self):
         #  type: (SCSIDevice) -> bool
         ino = get_inode(self._file_name)
-        return ino != self._ino
+        # a handle closed by an earlier, failed re-open is never usable
+        return self._file.closed or ino != self._ino
 
     def open(self):
         """
